@@ -7,13 +7,15 @@ import DafRel.Props.C14
 
 namespace DafRel
 
+variable {I : NodeInv}
+
 /-- `append_unary(PartialJoin, target)` in the SQL engine. -/
 theorem appendUnary_pj_sound (σ : Leaves) (st : Store) (fuel : Nat) (p : PJoin) (x : Rel)
-    (gx : Good σ x) (gF : Good σ p.fixed)
+    (gx : Good I σ x) (gF : Good I σ p.fixed)
     (hcl : p.join.minCols.subset (p.lhs x).columns = true) (hcr : p.join.minCols.subset (p.rhs x).columns = true)
     (hp : p.join.pred.columnsRequired.subset ((p.lhs x).columns.union (p.rhs x).columns) = true)
     (res : Res) (h : appendUnary st fuel (.pj p) x = .ok res) :
-    ∃ T, res = .new T ∧ Good σ T ∧ SelOK σ T ∧
+    ∃ T, res = .new T ∧ Good I σ T ∧ SelOK σ T ∧
       sem σ T = joinRows p.join.minCols p.join.pred (sem σ (p.lhs x)) (sem σ (p.rhs x)) ∧
       (∀ c, c ∈ T.columns ↔ c ∈ (p.lhs x).columns.union (p.rhs x).columns) ∧ T.engine = (p.lhs x).engine := by
   cases fuel with
@@ -68,6 +70,8 @@ theorem appendUnary_pj_sound (σ : Leaves) (st : Store) (fuel : Nat) (p : PJoin)
 end DafRel
 
 namespace DafRel
+
+variable {I : NodeInv}
 
 /-- What `PartialJoin._begin_apply` returns: the same fixed operand and side, the same predicate,
 common columns that both operands have, a predicate that only needs columns of the two operands. -/
@@ -129,10 +133,10 @@ theorem pjBeginApply_ok (p : PJoin) (x : Rel) (pref : Option Engine) (p' : PJoin
 the result is a coherent Select with exactly the rows of the join of the two operands on the
 resolved common columns and the predicate. -/
 theorem applyOp_pj_sound (σ : Leaves) (st : Store) (fuel : Nat) (p : PJoin) (x : Rel) (o : Opts)
-    (gx : Good σ x) (gF : Good σ p.fixed) (hpref : o.pref = none) (heng : p.fixed.engine = x.engine)
+    (gx : Good I σ x) (gF : Good I σ p.fixed) (hpref : o.pref = none) (heng : p.fixed.engine = x.engine)
     (hfix : p.join.resolved = true → p.join.minCols.subset p.fixed.columns = true)
     (res : Res) (h : applyOp st fuel (.pj p) x o = .ok res) :
-    ∃ common T, res = .new T ∧ Good σ T ∧ SelOK σ T ∧
+    ∃ common T, res = .new T ∧ Good I σ T ∧ SelOK σ T ∧
       sem σ T = joinRows common p.join.pred (sem σ (p.lhs x)) (sem σ (p.rhs x)) ∧
       (∀ c, c ∈ T.columns ↔ c ∈ (p.lhs x).columns.union (p.rhs x).columns) ∧ T.engine = x.engine ∧
       common.subset p.fixed.columns = true ∧ common.subset x.columns = true ∧
